@@ -594,6 +594,8 @@ def pm_directory_codec_rules(ck, P, rule="R-PM-DIR"):
     asg_off = [y for y in ir.walk_nodes(r["body"]) if y.get("k") == "assign" and ir.strip(y["l"]).get("k") == "field" and ir.strip(y["l"]).get("name") == "offset"]
     ck.check(subs == [1] and len(asg_off) == 2, rule, "reader|offset-minus-one", "a stored offset v > 0 is decoded as v - 1 and both branches assign the entry's offset",
              "stored offsets are not decoded as v - 1 (subtrahends %s, %d assignments to .offset)" % (subs, len(asg_off)), ir.loc(r))
+    from . import mvt as _mvt
+    _mvt.varint_rules(ck, P, rule)
     ck.check(okr, rule, "reader|id-sum", "tile ids are the running sum of the stored deltas, starting at 0", "the reader does not rebuild tile ids as the running sum of the deltas", ir.loc(r))
 
 
